@@ -5,7 +5,7 @@ From V Require Import UDial.Model UDial.Proofs.   (* C02's model of the dial: sp
 From V Require Import Gen.Params Lib.Hex Wire.Varint USpec.Model USpec.Proofs USpec.ProofsShuffle
   USpec.ProofsWire USpec.ProofsFp USpec.ProofsDial.   (* [dial] below is USpec.Model.dial *)
 From V Require UFrames.Model UFrames.Proofs UPacker.Model UPacker.ProofsRandom USpec.ProofsBuilder.
-From V Require USpec.RunDial USpec.RunFp USpec.ProofsFpCase USpec.ProofsFrameBytes USpec.HistoryModel USpec.History.
+From V Require USpec.RunDial USpec.RunFp USpec.ProofsFpCase USpec.ProofsFrameBytes USpec.HistoryModel USpec.History USpec.ProofsBuiltin.
 Import ListNotations.
 Open Scope Z_scope.
 
@@ -384,6 +384,30 @@ Theorem C11_builder_bytes_types : forall p data base bs us ws bs' us',
 Proof. exact ProofsFrameBytes.builder_bytes_types. Qed.
 Print Assumptions C11_builder_bytes_types.
 
+(** Round 8 (audit P1): clause (e), transport-parameter part, for the built-in QUICIDs.  The
+    hash input ignores everything that differs between two dials of one QUICID: *)
+Theorem C11_qtp_features_ignores : forall w1 w2,
+  map RunFp.fp_proj w1 = map RunFp.fp_proj w2 -> qtp_features w1 = qtp_features w2.
+Proof. exact ProofsBuiltin.qtp_features_ignores. Qed.
+Print Assumptions C11_qtp_features_ignores.
+
+(** ([fp_proj]: id with GREASE folded to 27, value kept only for the eleven hashed ids -- so the
+    value of initial_source_connection_id, GREASE ids and values, ChromeRandomInitialRTT, the
+    GREASE version are invisible.)  For QUICID number q of the generated table
+    [uspec_builtin_tp] (the 7 built-in lists, projected and sorted; duplicate-freeness of their
+    ids is checked here, by computation): every wire list that [builtin_check] accepts -- and
+    every simulated dial of a fresh built-in spec is a case checked by it -- has the table's
+    feature tuple, hence any two dials the same. *)
+Theorem C11_builtin_qtp_features : forall q w,
+  RunFp.builtin_check q w = true -> qtp_features w = qtp_features (RunFp.builtin_tp q).
+Proof. exact ProofsBuiltin.builtin_qtp_features. Qed.
+Print Assumptions C11_builtin_qtp_features.
+
+Theorem C11_builtin_same_on_every_dial : forall q w1 w2,
+  RunFp.builtin_check q w1 = true -> RunFp.builtin_check q w2 = true -> qtp_features w1 = qtp_features w2.
+Proof. exact ProofsBuiltin.builtin_same_on_every_dial. Qed.
+Print Assumptions C11_builtin_same_on_every_dial.
+
 (** Non-vacuity. *)
 Example C11_ex_suppress :
   map pid (suppress [27; 4] [P 4 [1] true; P 58 [] false; P 27 [9] false; P 1 [2] true; P 89 [] false; P 26 [] false])
@@ -494,3 +518,15 @@ Example C11_ex_frame_bytes : (* PADDING runs merge, an empty PADDING frame is in
   ProofsBuilder.wtypes ws = [0; 6; 1; 0].
 Proof. repeat split. Qed.
 Print Assumptions C11_ex_frame_bytes.
+
+Example C11_ex_builtin : (* two Chrome_115 wires: different GREASE draw, order and SCID value; not permutations
+                            of each other (the premise of C11_fp_invariant fails) yet both accepted *)
+  let w1 := [(1, [128; 0; 117; 48]); (3, [69; 192]); (4, [128; 240; 0; 0]); (5, [128; 96; 0; 0]); (6, [128; 96; 0; 0]);
+             (7, [128; 96; 0; 0]); (8, [64; 100]); (9, [64; 103]); (15, []); (58, [1; 2]); (32, [128; 1; 0; 0]);
+             (12584, [82; 86; 67; 77]); (18258, [0; 0; 0; 1]); (16741339, [0; 0; 0; 1])] in
+  let w2 := [(16741339, [0; 0; 0; 1; 10; 10; 10; 10]); (89, []); (15, [7; 7; 7]); (9, [64; 103]); (8, [64; 100]);
+             (7, [128; 96; 0; 0]); (6, [128; 96; 0; 0]); (5, [128; 96; 0; 0]); (4, [128; 240; 0; 0]); (3, [69; 192]);
+             (1, [128; 0; 117; 48]); (32, [128; 1; 0; 0]); (12584, [82; 86; 67; 77]); (18258, [0; 0; 0; 1])] in
+  RunFp.builtin_check 0 w1 = true /\ RunFp.builtin_check 0 w2 = true /\ w1 <> w2 /\ RunFp.perm_eqb w1 w2 = false.
+Proof. exact ProofsBuiltin.builtin_example. Qed.
+Print Assumptions C11_ex_builtin.
